@@ -57,6 +57,13 @@ def gen(rng, tier):
         nops = rng.randrange(2, 13 if tier == "quick" else 41); ops = gen_hist(rng, nops)
         kinds = "".join(sorted(set(o[0] for o in ops)))
         add(i % 2, ops, "hist kinds=%s" % kinds)
+    # buffers of a page and more: grow to several pages, shrink to a few bytes (non-zero), shrink in steps, then release
+    for lock in (0, 1):
+        for big in (4096, 4128, 8192, 10000, 70000):
+            for small in (1, 10, 100, big - 4096, big // 2):
+                if small <= 0: continue
+                add(lock, ["P:A:%s" % hexs(rbytes(rng, 40)), "R:A:%d" % big, "W:A:%d:77" % (big - 1), "R:A:%d" % small, "W:A:0:5", "L:A"], "page-sized grow %d shrink %d lock=%d" % (big, small, lock))
+        add(lock, ["N:A:9000", "W:A:8999:9", "R:A:4904", "R:A:808", "R:A:7", "C:B", "L:A", "L:B"], "page-sized stepwise shrink lock=%d" % lock)
     # element types wider than a byte (secure_buffer<uint32_t>, <uint64_t>): byte counts are element counts times sizeof(T)
     for var in ("w0", "w1", "x0", "x1"):
         fill = "P:A:%s" % hexs(rbytes(rng, 24))
